@@ -124,6 +124,8 @@ def state_prefix(ctx) -> None:
     red = prog.func(f'{USER}:Preset.reduce')
     text = core.src(red.node)
     ctx.check('value, *args = args' in text and 'self.set(actor, value)' in text and 'self._action.reduce(actor, *args)' in text, 'C01.state-prefix', red, 'the preset consumes the first positional argument and forwards the rest in order', red.node, key='reduce')
+    sets = [c for c in core.calls_in(red.node) if core.src(c.func) == 'self.set']
+    ctx.check(len(sets) == 1 and [core.src(t) for t, pol in cfg.guards(sets[0], red.node, siblings=False) if pol] == ['value'], 'C01.state-prefix', red, 'a non-empty preset value is applied (an empty one skipped)', red.node, key='reduce:guard')
     # the state key: the trained sibling is registered under the group id so that forks find its output
     aliases = [s for s in core.walk_local(add.node) if isinstance(s, ast.Expr) and core.src(s.value) == 'aliases.append(state)']
     ok_alias = len(aliases) == 1 and any(core.src(t) == 'node.trained' and pol for t, pol in cfg.guards(aliases[0], add.node, siblings=False))
@@ -202,13 +204,52 @@ def once_only(ctx) -> None:
         ctx.check('mask=mask' in core.src(loops[0].iter) and 'subscribers(' in core.src(loops[0].iter), 'C01.once', trav, 'already seen subscribers are masked out', loops[0], key='mask')
     acc = [s for s in graph.statements() if isinstance(s, ast.Expr) and core.src(s.value) == 'acceptor(traversal.pivot)']
     ctx.check(len(acc) == 1 and bool(seen) and not graph.reaches(seen[0], acc[0], no_back=True), 'C01.once', trav, 'the acceptor is called at most once per visit, before the node is marked', trav.node, key='acceptor-once')
+    masks = [s for s in graph.statements() if isinstance(s, ast.Assign) and core.src(s.targets[0]) == 'mask']
+    okm = len(masks) == 1 and isinstance(masks[0].value, ast.IfExp) and core.src(masks[0].value.test) in ('traversal.pivot == tail', 'tail == traversal.pivot') and core.src(masks[0].value.body) == 'unseen_trained' and core.src(masks[0].value.orelse) == 'unseen'
+    ctx.check(okm, 'C01.once', trav, 'beyond the segment tail only (unseen) trained subscribers are followed, inside the segment every unseen subscriber', masks[0] if masks else trav.node, key='mask:tail')
+    ut = each.nested('unseen_trained')
+    ctx.check(core.src(ut.body[-1]) == 'return unseen(node) and isinstance(node, atomic.Worker) and node.trained', 'C01.once', ut, 'tail mask = unseen and trained worker', ut.node, key='unseen_trained')
+    rec = [c for c in core.calls_in(loops[0]) if core.src(c.func) == 'traverse'] if loops else []
+    ctx.check(len(rec) == 1 and core.src(rec[0].args[0]) == core.src(loops[0].target), 'C01.once', trav, 'the traversal descends into every (masked) subscriber', loops[0] if loops else trav.node, key='recursion')
     un = each.nested('unseen')
     ctx.check('return node not in seen' in core.src(un.node), 'C01.once', un, 'unseen = not yet visited', un.node, key='unseen')
     comp = prog.func(f'{COMPILER}:compile')
     ctx.check('table = Table(assets)' in core.src(comp.node) and 'segment.accept(table)' in core.src(comp.node) and 'return tuple(table)' in core.src(comp.node), 'C01.once', comp, 'compile = one traversal of the segment into a fresh table', comp.node, key='compile')
 
 
+def emission(ctx) -> None:
+    """Symbol emission: every instruction is emitted once with the arguments linked to *its own* keys (aliases merged
+    position-wise, at most one non-null per position), only unused getters are pruned."""
+    prog = ctx.prog
+    it = prog.func(f'{COMPILER}:Table.__iter__')
+    text = it.text()
+    loops = [n for n in core.walk_local(it.node) if isinstance(n, ast.For)]
+    okl = len(loops) == 1 and core.src(loops[0].iter) == 'self._index.instructions' and isinstance(loops[0].target, ast.Tuple)
+    ctx.check(okl, 'C01.emission', it, 'one pass over (instruction, its keys)', it.node, key='iter:loop')
+    if okl:
+        ins, keys = [core.src(e) for e in loops[0].target.elts]
+        ctx.check(f'tuple((self._index[a] for a in functools.reduce(merge, (self._linkage[k] for k in {keys}))))' in text, 'C01.emission', it, 'arguments = the instructions linked to this instruction\'s own keys, in positional order', loops[0], key='iter:arguments')
+        ys = [n for n in ast.walk(loops[0]) if isinstance(n, ast.Yield)]
+        ctx.check(len(ys) == 1 and core.src(ys[0].value) == f'target.Symbol({ins}, arguments)', 'C01.emission', it, 'each instruction is emitted once, with its arguments', loops[0], key='iter:yield')
+        skips = [c for c in ast.walk(loops[0]) if isinstance(c, ast.Continue)]
+        ctx.check(all([core.src(t) for t, pol in cfg.guards(c, it.node, siblings=False) if pol] == [f'{ins} in stubs'] for c in skips) and len(skips) == 1, 'C01.emission', it, 'only stub getters are pruned', loops[0], key='iter:prune')
+    ctx.check('stubs = {s for s in (self._index[n] for n in self._linkage.leaves) if isinstance(s, system.Getter)}' in text, 'C01.emission', it, 'a stub is a Getter nobody consumes (a linkage leaf)', it.node, key='iter:stubs')
+    pick = it.nested('merge').nested('pick')
+    ctx.check("assert not (left and right), 'Expecting at most one non-null value'" in core.src(pick.node) and 'return left if left else right' in core.src(pick.node), 'C01.emission', pick, 'alias merge picks the single non-null argument of a position', pick.node, key='iter:pick')
+    mg = it.nested('merge')
+    ctx.check('itertools.zip_longest(value, element)' in core.src(mg.node), 'C01.emission', mg, 'aliases are merged position by position', mg.node, key='iter:merge')
+    ix = prog.func(f'{COMPILER}:Table.Index.instructions')
+    ctx.check('itertools.groupby(self._instructions.keys(), self._instructions.__getitem__)' in core.src(ix.node), 'C01.emission', ix, 'keys are grouped by the instruction they name', ix.node, key='index:groupby')
+    add = prog.func(f'{COMPILER}:Table.add')
+    al = [s for s in add.body if isinstance(s, ast.For) and core.src(s.iter) == 'aliases']
+    ctx.check(len(al) == 1 and core.src(al[0].body[0]) == f'self._index.set(functor, {core.src(al[0].target)})', 'C01.emission', add, 'all aliases of a node are registered consecutively for the one functor (groupby needs adjacency)', al[0] if al else add.node, key='add:aliases')
+    lv = prog.func(f'{COMPILER}:Table.Linkage.leaves')
+    t2 = core.src(lv.node)
+    ctx.check('parents = {i for a in itertools.chain(self._absolute.values(), self._prefixed.values()) for i in a}' in t2 and 'set(self._absolute).union(self._prefixed).difference(parents)' in t2, 'C01.emission', lv, 'leaves = instructions that are nobody\'s argument', lv.node, key='leaves')
+
+
 def run(ctx) -> None:
+    emission(ctx)
     port_order(ctx)
     getter_index(ctx)
     state_prefix(ctx)
